@@ -281,6 +281,16 @@ fn needs_parens_as_operand(
     expr_level(child_expr, scope) < parent_level
 }
 
+/// Check if the operand of a prefix operator needs parentheses
+pub fn needs_parens_as_prefix_operand(operand: &SpannedExpr) -> bool {
+    needs_parens_as_operand(operand, LEVEL_PREFIX, None)
+}
+
+/// Check if the operand of postfix `!` needs parentheses
+pub fn needs_parens_as_factorial_operand(operand: &SpannedExpr) -> bool {
+    needs_parens_as_operand(operand, LEVEL_FACTORIAL, None)
+}
+
 /// Check if a call target needs parentheses (used by the multi-line formatter as well)
 pub fn needs_parens_as_callee(func: &SpannedExpr) -> bool {
     needs_parens_as_operand(func, LEVEL_ACCESS, None)
